@@ -277,9 +277,16 @@ def _eval_rec(case):
 
 
 def _eval_recbatch(case):
-    """all sequences of length <= MAXLEN starting with case['first'] (or the empty record)."""
-    enc, rot = case["enc"], case.get("rot", 0)
-    seqs = [[]] if case["first"] is None else [[case["first"]] + list(rest) for n in range(MAXLEN) for rest in itertools.product(FIELD_TYPES, repeat=n)]
+    """all sequences of length <= case['maxlen'] that start with case['prefix'] (a prefix shorter
+    than case['plen'] stands for itself only; prefix None is the empty record)."""
+    enc, rot, maxlen = case["enc"], case.get("rot", 0), case["maxlen"]
+    pre = case["prefix"]
+    if pre is None:
+        seqs = [[]]
+    elif len(pre) < case["plen"]:
+        seqs = [list(pre)]
+    else:
+        seqs = [list(pre) + list(rest) for n in range(maxlen - len(pre) + 1) for rest in itertools.product(FIELD_TYPES, repeat=n)]
     vs, n = [], 0
     per_key = {}
     for types in seqs:
@@ -292,7 +299,19 @@ def _eval_recbatch(case):
                     per_key[viol["key"]] = per_key.get(viol["key"], 0) + 1
                     if per_key[viol["key"]] <= 2:
                         vs.append(viol)
-    return {"viols": vs, "n": n, "nontrivial": n - (3 if case["first"] is None else 0), "counts": per_key}
+    return {"viols": vs, "n": n, "nontrivial": n - (3 if pre is None else 0), "counts": per_key}
+
+
+def record_cases(quick, rot):
+    maxlen = MAXLEN if quick else MAXLEN + 1
+    plen = 1 if quick else 2
+    out = []
+    for enc in ("bin", "ascii"):
+        out.append({"kind": "recbatch", "enc": enc, "prefix": None, "plen": plen, "maxlen": maxlen, "rot": rot})
+        for n in range(1, plen + 1):
+            for pre in itertools.product(FIELD_TYPES, repeat=n):
+                out.append({"kind": "recbatch", "enc": enc, "prefix": list(pre), "plen": plen, "maxlen": maxlen, "rot": rot})
+    return out, maxlen
 
 
 # ---------------------------------------------------------------------------------------------
@@ -397,7 +416,7 @@ def _compare_ref(enc, recs, payloads):
     raise Stop("%s-content" % enc, name, "record %d (%s) differs from the reference writer at byte %d: %r vs %r" % (k, name, off, got[off : off + 8], want[off : off + 8]))
 
 
-def chain(fmt, obj, io4, observe, ref, workdir, single_fields=True):
+def chain(fmt, obj, io4, observe, ref, workdir):
     """The oracle chain for one container.  Raises Stop at the first failed oracle."""
     wb, rb, wa, ra = io4
     p = lambda n: os.path.join(workdir, n)  # noqa: E731
@@ -443,17 +462,32 @@ def chain(fmt, obj, io4, observe, ref, workdir, single_fields=True):
     return {"records": len(payloads), "bytes": len(b1)}
 
 
+_SOFT = []  # violations that do not stop a fixture chain (filled by fixture_chain, drained by _eval_fixture)
+
+
+def _label_only(a, b):
+    """True when two well-framed files differ only inside the first 24 payload bytes of record 0."""
+    pa, ea = W.frames(a)
+    pb, eb = W.frames(b)
+    if ea or eb or len(pa) != len(pb) or not pa:
+        return False
+    if len(pa[0]) != len(pb[0]) or pa[0][24:] != pb[0][24:] or pa[0][:24] == pb[0][:24]:
+        return False
+    return all(x == y for x, y in zip(pa[1:], pb[1:]))
+
+
 def _where(a, b):
-    """which record first differs (index kept out of the key: only the framing status)"""
+    """which record first differs: the index for the three leading (file-level) records, whose
+    position is the same in every file of a format; 'data-record' beyond"""
     pa, ea = W.frames(a)
     pb, eb = W.frames(b)
     if ea or eb:
         return "framing"
     if len(pa) != len(pb):
         return "record-count"
-    for x, y in zip(pa, pb):
-        if len(x) != len(y):
-            return "record-length"
+    for k, (x, y) in enumerate(zip(pa, pb)):
+        if x != y:
+            return "%s-%s" % ("record-%d" % k if k < 3 else "data-record", "length" if len(x) != len(y) else "content")
     return "record-content"
 
 
@@ -546,6 +580,10 @@ def format_io(fmt):
     return F.FORMATS[base][3](dict(extra, fmt=base)), F.observe
 
 
+def _basefmt(fmt):
+    return {"atflux": "rtflux", "nhflux-variant": "nhflux"}.get(fmt, fmt)
+
+
 def _norm_text(p):
     with open(p, "r") as f:  # universal newlines: CRLF fixtures compare equal to LF output
         return f.read()
@@ -564,7 +602,14 @@ def fixture_chain(fmt, enc, src, workdir):
         _do("write-bin", wb, c, p("f1"))
         b1 = _read_bytes(p("f1"))
         if b1 != b0:
-            raise Stop("rewrite-bin", _where(b0, b1), "write(read(file)) differs from file: %s" % _bytes_diff(b0, b1))
+            if _label_only(b0, b1):
+                # the reader deliberately replaces the 24-character file label (record 0) by the
+                # format's own label; recorded as its own class, and the chain goes on against the
+                # normalised file so that any further difference is still found
+                _SOFT.append(("rewrite-bin", "file-label-replaced-on-read", "write(read(file)) differs from file only in the 24-character file label: %s" % _bytes_diff(b0, b1)))
+                b0 = b1
+            else:
+                raise Stop("rewrite-bin", _where(b0, b1), "write(read(file)) differs from file: %s" % _bytes_diff(b0, b1))
         d = W.diff(o, observe(_do("read-bin", rb, p("f1"))))
         if d:
             raise Stop("roundtrip-bin", d[1], "read(write(read(file))): %s was %r, now %r" % (d[0], d[2], d[3]))
@@ -606,14 +651,19 @@ def fixture_chain(fmt, enc, src, workdir):
 def _eval_fixture(case):
     d = env.fresh_dir("c09")
     snap = X.snapshot_tables()
+    del _SOFT[:]
+    out = []
     try:
         fixture_chain(case["fmt"], case["enc"], os.path.join(env.REPO, case["path"]), d)
     except Stop as s:
-        return [core.viol("c09/fixture-%s-%s/%s" % (case["fmt"], s.stage, s.detail), "fixture %s: %s" % (case["path"], s.msg), case)]
+        out.append(core.viol("c09/%s-%s/%s" % (_basefmt(case["fmt"]), s.stage, s.detail), "fixture %s: %s" % (case["path"], s.msg), case))
     finally:
         shutil.rmtree(d, ignore_errors=True)
         X.restore_tables(snap)
-    return []
+    for stage, detail, msg in _SOFT:
+        out.append(core.viol("c09/%s-%s/%s" % (_basefmt(case["fmt"]), stage, detail), "fixture %s: %s" % (case["path"], msg), case))
+    del _SOFT[:]
+    return out
 
 
 # ---------------------------------------------------------------------------------------------
@@ -630,7 +680,7 @@ def _eval_reduce(case):
         obj = X.reduce(case["fmt"], whole, case["keep"], case.get("clear"))
         chain(case["fmt"], obj, (wb, rb, wa, ra), observe, None, d)
     except Stop as s:
-        return [core.viol("c09/reduced-%s-%s/%s" % (case["fmt"], s.stage, s.detail), "%s reduced to members %s%s: %s" % (case["path"], case["keep"], (" with %s cleared" % case["clear"]) if case.get("clear") else "", s.msg), case)]
+        return [core.viol("c09/%s-%s/%s" % (_basefmt(case["fmt"]), s.stage, s.detail), "%s reduced to members %s%s: %s" % (case["path"], case["keep"], (" with %s cleared" % case["clear"]) if case.get("clear") else "", s.msg), case)]
     finally:
         shutil.rmtree(d, ignore_errors=True)
         X.restore_tables(snap)
@@ -668,24 +718,37 @@ def _eval_words(case):
     n = 0
     try:
         src = case["source"]
-        (wb, rb, wa, ra), observe = format_io(src["fmt"] if src["kind"] != "fmt" else _flavour(src["spec"]))
         p = lambda name: os.path.join(d, name)  # noqa: E731
-        try:
-            if src["kind"] == "fmt":
-                fmt = src["spec"]["fmt"]
-                build = (F.FORMATS.get(fmt) or X.FORMATS[fmt])[1]
-                obj = build(src["spec"], case.get("rot", 0))
-            else:
+        b0 = None
+        if src["kind"] == "fmt":
+            for spec in src["specs"]:
+                (wb, rb, wa, ra), observe = format_io(_flavour(spec))
+                try:
+                    build = (F.FORMATS.get(spec["fmt"]) or X.FORMATS[spec["fmt"]])[1]
+                    wb(build(spec, case.get("rot", 0)), p("f0"))
+                    b0 = _read_bytes(p("f0"))
+                    wb(rb(p("f0")), p("f1"))
+                    if _read_bytes(p("f1")) == b0:
+                        src = {"kind": "fmt", "spec": spec}
+                        break
+                except Exception:
+                    pass  # reported by the plain case of the same spec
+                b0 = None
+                X.restore_tables(snap)
+        else:
+            (wb, rb, wa, ra), observe = format_io(src["fmt"])
+            try:
                 whole = (ra if src.get("enc") == "ascii" else rb)(os.path.join(env.REPO, src["path"]))
-                obj = X.reduce(src["fmt"], whole, src["keep"], src.get("clear"))
-            wb(obj, p("f0"))
-            b0 = _read_bytes(p("f0"))
-            wb(rb(p("f0")), p("f1"))
-            if _read_bytes(p("f1")) != b0:
-                return {"viols": [], "n": 0}  # reported by the plain case of the same source
-            words = real_words(rb, p("f0"))
-        except Exception:
-            return {"viols": [], "n": 0}  # ditto
+                wb(X.reduce(src["fmt"], whole, src["keep"], src.get("clear")), p("f0"))
+                b0 = _read_bytes(p("f0"))
+                wb(rb(p("f0")), p("f1"))
+                if _read_bytes(p("f1")) != b0:
+                    b0 = None
+            except Exception:
+                b0 = None
+        if b0 is None:
+            return {"viols": [], "n": 0}
+        words = real_words(rb, p("f0"))
         payload_spans = []
         pos = 0
         for pl in W.frames(b0)[0]:
@@ -733,7 +796,9 @@ def _flavour(spec):
 
 
 def _srcfmt(src):
-    return src["spec"]["fmt"] if src["kind"] == "fmt" else src["fmt"]
+    if src["kind"] == "fmt":
+        return (src.get("spec") or src["specs"][0])["fmt"]
+    return src["fmt"]
 
 
 def _srcname(src):
@@ -753,45 +818,98 @@ def evaluate(case):
 def _dispatch(case):
     if case["kind"] == "recbatch":
         return _eval_recbatch(case)
+    if case["kind"] == "words":
+        r = _eval_words(case)
+        return {"viols": r["viols"], "n": r["n"], "nontrivial": r["n"], "counts": {}}
     return {"viols": _EVAL[case["kind"]](case), "n": 1, "nontrivial": 1, "counts": {}}
+
+
+def _ref_size(entry, spec, rot):
+    try:
+        return sum((len(w) if not isinstance(w, int) else w) for _, w in entry[2](spec, rot) if w is not None)
+    except Exception:
+        return 0
+
+
+def word_sources(quick, rot, fmt_cases):
+    """small files whose real words are perturbed one by one: per format a spread of the
+    enumerated containers over the file-size range (each pick comes with fallbacks: the first
+    candidate that survives its own plain round trip is used), plus reduced fixtures"""
+    out = []
+    per = 6 if quick else 24
+    byfmt = {}
+    for c in fmt_cases:
+        byfmt.setdefault(c["spec"]["fmt"], []).append(c["spec"])
+    for fmt, specs in byfmt.items():
+        entry = F.FORMATS.get(fmt) or X.FORMATS[fmt]
+        sized = sorted(((_ref_size(entry, s, rot), k) for k, s in enumerate(specs)))
+        step = max(1, len(sized) // per)
+        for i in sorted(set(range(step - 1, len(sized), step)) | {len(sized) - 1}):
+            cands = [specs[sized[j][1]] for j in range(i, max(-1, i - step), -max(1, step // 5))][:5]
+            out.append({"kind": "words", "source": {"kind": "fmt", "specs": cands}, "rot": rot})
+    for c in X.reduction_cases(True):
+        small = c["fmt"] == "compxs" and c["keep"] in ([1], [2, 0])
+        if small or (not quick and not c.get("clear") and len(c["keep"]) == 1 and c["keep"][0] % 4 == 0):
+            out.append({"kind": "words", "source": c, "rot": rot})
+    return out
 
 
 def cases(ctx):
     rot = ctx.seed % 5
     out = []
-    for enc in ("bin", "ascii"):
-        out.append({"kind": "recbatch", "enc": enc, "first": None, "rot": rot})
-        for t in FIELD_TYPES:
-            out.append({"kind": "recbatch", "enc": enc, "first": t, "rot": rot})
+    rc, maxlen = record_cases(ctx.quick, rot)
+    out += rc
+    fmt_cases = []
     for fmt, entry in list(F.FORMATS.items()) + list(X.FORMATS.items()):
         for s in entry[0](ctx.quick):
-            out.append({"kind": "fmt", "spec": s, "rot": rot})
-    return out
+            fmt_cases.append({"kind": "fmt", "spec": s, "rot": rot})
+    out += fmt_cases
+    fx, skipped = fixture_list()
+    out += fx
+    out += X.reduction_cases(ctx.quick)
+    out += word_sources(ctx.quick, rot, fmt_cases)
+    return out, skipped, maxlen
 
 
 def run(ctx):
-    cs = ctx.order(cases(ctx))
-    res = core.pmap(MOD, "_dispatch", cs, chunksize=4)
+    cs, skipped, maxlen = cases(ctx)
+    # long cases first (fixtures, word passes), then the many small ones: better load balance
+    heavy = [c for c in cs if c["kind"] in ("fixture", "words", "reduce")]
+    light = [c for c in cs if c["kind"] not in ("fixture", "words", "reduce")]
+    cs = ctx.order(heavy) + ctx.order(light)
+    res = core.pmap(MOD, "_dispatch", cs, chunksize=2)
     ev = nt = 0
     for c, r in zip(cs, res):
         ev += r["n"]
         nt += r["nontrivial"]
-        kind = c["kind"] if c["kind"] != "fmt" else "fmt_" + c["spec"]["fmt"]
-        ctx.count("executions_" + kind + ("_" + c["enc"] if "enc" in c else ""), r["n"])
+        kind = c["kind"]
+        if kind == "fmt":
+            kind = "fmt_" + c["spec"]["fmt"]
+        elif kind in ("fixture", "reduce"):
+            kind += "_" + c["fmt"]
+        elif kind == "words":
+            kind = "words_" + _srcfmt(c["source"])
+            ctx.count("word_sources_" + ("usable" if r["n"] else "unusable(source fails its own round trip)"))
+        ctx.count("executions_" + kind + ("_" + c["enc"] if "enc" in c and kind.startswith("rec") else ""), r["n"])
         for k, n in r["counts"].items():
             ctx.count("violating_records::" + k, n)
         ctx.add_violations(r["viols"])
-    ctx.samples = [c for c in cs if c["kind"] == "fmt"][:3] + [c for c in cs if c["kind"] == "recbatch"][:2]
+    for path in skipped:
+        ctx.count("fixture_files_not_cccc")
+    ctx.samples = [c for c in cs if c["kind"] == "fmt"][:2] + [c for c in cs if c["kind"] == "fixture"][:1] + [c for c in cs if c["kind"] == "recbatch"][:1] + [c for c in cs if c["kind"] == "words"][:1]
     ctx.coverage.update(
         evaluations=ev,
         distinct_nontrivial=nt,
-        rule="record level: one evaluation per (encoding, field-type sequence of length <= %d, value variant); format level: one evaluation per well-formed container of the header-flag lattice; the empty record is counted trivial" % MAXLEN,
+        rule="record level: one evaluation per (encoding, field-type sequence of length <= %d, value variant), the empty record counted trivial; format level: one per well-formed container of the header-flag lattice (each goes through binary write/reference compare/read/re-write and the same in ASCII); one per repo fixture; one per reduced fixture; one per perturbed real word" % maxlen,
         exhaustive=True,
         field_types=len(FIELD_TYPES),
-        max_fields_per_record=MAXLEN,
+        max_fields_per_record=maxlen,
+        fixtures=[c["path"] for c in cs if c["kind"] == "fixture"],
+        fixture_files_not_cccc=skipped,
     )
     ctx.assumptions += [
-        "field-type alphabet and three value variants per type (typical, type maximum, type minimum); strings are ASCII without trailing blanks and no longer than the field",
-        "format containers are enumerated over the stated header-flag lattices with dimensions <= 3",
-        "reference writers (c09_formats) follow the CCCC-IV / DIF3D file descriptions and are trusted",
+        "field-type alphabet and three value variants per type (typical, type maximum, type minimum); strings are ASCII without trailing blanks and no longer than the field; AsciiRecordWriter has no rwLong, so long fields are explored in binary only",
+        "format containers are enumerated over the stated header-flag lattices with dimensions <= 3; ISOTXS/GAMISO blocks hold one Legendre order (the container has one matrix per block), file label ISOTXS (the readers normalise the label by design)",
+        "records armi refuses with NotImplementedError on both sides (1-D RTFLUX, LABELS control-rod/burnup records, ISOTXS chi matrices, PMATRX in-plate data) are outside 'can both read and write'",
+        "reference writers (c09_formats, c09_xs) follow the CCCC-IV / DIF3D / MC2-3 file descriptions and are trusted; COMPXS is checked for record lengths only plus the word-perturbation pass",
     ]
